@@ -256,7 +256,44 @@ func scriptNumPush(v int64) []byte {
 
 // IsUnspendable is the model's rule for outputs that never enter the UTXO set.
 func IsUnspendable(pk []byte) bool {
-	return (len(pk) > 0 && pk[0] == 0x6a) || len(pk) > 10000
+	return (len(pk) > 0 && pk[0] == 0x6a) || len(pk) > 10000 || !scriptParses(pk)
+}
+
+// scriptParses: every push of the script has its data (txscript.IsUnspendable documents that a
+// script which fails to parse is treated like a provably unspendable one and never stored).
+func scriptParses(pk []byte) bool {
+	for i := 0; i < len(pk); {
+		op := pk[i]
+		i++
+		n := 0
+		switch {
+		case op >= 0x01 && op <= 0x4b:
+			n = int(op)
+		case op == 0x4c:
+			if i+1 > len(pk) {
+				return false
+			}
+			n = int(pk[i])
+			i++
+		case op == 0x4d:
+			if i+2 > len(pk) {
+				return false
+			}
+			n = int(pk[i]) | int(pk[i+1])<<8
+			i += 2
+		case op == 0x4e:
+			if i+4 > len(pk) {
+				return false
+			}
+			n = int(pk[i]) | int(pk[i+1])<<8 | int(pk[i+2])<<16 | int(pk[i+3])<<24
+			i += 4
+		}
+		if n < 0 || i+n > len(pk) {
+			return false
+		}
+		i += n
+	}
+	return true
 }
 
 // TxFee computes the fee of tx against a UTXO set (panics if an input is missing).
